@@ -28,9 +28,38 @@ def fnptr_name(node):
     return None
 
 
+def tree_view(fn):
+    """The variant function with those static helpers inlined that take part in the map operation itself (they call the
+    comparator or a notifier, allocate or free); balancing helpers, rotations and colour tests stay calls."""
+    from plint.ir import walk
+    u = fn.unit
+    direct = set()
+    callees = {}
+    for f in u.functions.values():
+        cs = set()
+        for b, i, s_ in f.stmts():
+            for n in walk(s_, elsewhere=True):
+                if n["k"] == "call":
+                    if n.get("callee") is None or n.get("callee") in ("p_free", "p_malloc", "p_malloc0"):
+                        direct.add(f.name)
+                    elif n.get("callee") in u.functions:
+                        cs.add(n["callee"])
+        callees[f.name] = cs
+    changed = True
+    while changed:
+        changed = False
+        for name, cs in callees.items():
+            if name not in direct and cs & direct:
+                direct.add(name)
+                changed = True
+    only = set(n for n in direct if u.functions[n].static and n != fn.name)
+    return fn.inlined(only=only) if only else fn
+
+
 class TreeRun:
     def __init__(self, fn, kind, roles=None, alloc_names=("p_malloc0", "p_malloc")):
         """kind: insert|remove|clear ; roles: names of the comparator / notifier callables in this function."""
+        fn = tree_view(fn)
         self.fn = fn
         self.kind = kind
         self.roles = roles or {}
